@@ -15,17 +15,17 @@ from . import cli_common as cc
 from .c20 import fresh_and_pure, CACHE_DECOS
 
 LEVEL = "other"
-TECHNIQUE = ("stencil rule on the single whole-array update, dtype round-trip rule, effect analysis with the in_place "
-             "flag, provenance (taint) of the arguments of the random draw, purity of apply")
+TECHNIQUE = ("forward substitution + scenario evaluation of the value returned by apply against the documented closed form, effect "
+             "analysis with the in_place flag, provenance of the arguments of the random draw, purity of apply")
 EXPLANATION = (
-    "Decides: Preemphasize.apply updates the signal by exactly one whole-array statement x[..., 1:] -= coeff * x[..., :-1] "
-    "(right-hand side materialised before the subtraction, sample 0 untouched, no block-wise loop that could read "
-    "already-updated samples) and its torch twin is the same stencil with a prepended zero; both apply methods record the "
-    "input dtype first, work in float64 and finish with astype(<input dtype>); in-place writes reach an alias of the input "
-    "only when in_place is true, and then through the same single code path; Dither draws numpy.random.normal(0, coeff, "
-    "<shape of the signal>) from the global generator (reproducible under numpy.random.seed), adds it once, keeps no "
-    "state on the instance, so the noise is signal-independent, linear in coeff and vanishes at coeff = 0. Does NOT "
-    "decide distributional facts (zero mean, standard deviation).")
+    "Decides: the value Dither.apply / Preemphasize.apply return, forward-substituted (helpers, temporaries and conditional "
+    "expressions read through) and specialised to every scenario in_place x input dtype (float64, float32, int16) x axis (None, -1, "
+    "other) x rank, is the documented expression: a float64 working copy unless in_place on a float64 array, "
+    "x[..., 1:] -= coeff * x[..., :-1] along the chosen axis (right-hand side materialised first, sample 0 kept) resp. one "
+    "numpy.random.normal(0, coeff, <shape only>) added, then astype(<input dtype>); no chunked / looped stencil; the torch twins are "
+    "the same stencil with a prepended zero and sig + coeff * randn_like(sig); in-place writes reach an alias of the input only "
+    "when in_place is true; the draw comes from the global generator, apply keeps no state. Does NOT decide distributional facts "
+    "(zero mean, standard deviation).")
 
 
 def run(ctx):
